@@ -240,6 +240,12 @@ def a3_terminal_parity(ck):
     b5_is_check(ck)
     b6_from_occupancy(ck)
     b7_dispatch(ck)
+    # ... from the leaper tables, whose two colours of pawn attacks must mirror each other (C09's M7, M8, leaper tables)
+    from . import c09 as _c09
+    _c9 = {}
+    _c09.m7_offsets_and_masks(ck, _c9)
+    _c09.m8_no_wrap(ck)
+    _c09.leaper_tables(ck, _c9)
     # ... and the legal move list, which is decided on successor positions: the successor function treats the colours alike (C02's U rules)
     from . import c02 as _c02
     _ctx = {}
